@@ -12,10 +12,9 @@
     chunk contents are indexes into the case's data table ([dtab]), whose
     entries are raw bytes, a span header followed by [len] copies of one byte
     (the 256 KiB data chunks), or a span header followed by references (the
-    intermediate chunks).  The stored BYTES are compared on the steps the
-    harness marks [full] (always the end of the set-up and the last step); on
-    the other steps address, bin id and store timestamp of every data entry
-    are compared. *)
+    intermediate chunks).  The stored BYTES are compared on the step the
+    harness marks [full] (the last step of every history); on the other steps
+    address, bin id and store timestamp of every data entry are compared. *)
 From Coq Require Import List NArith ZArith Bool Ascii String.
 Import ListNotations.
 Require Import Aurora.Base.Corr Aurora.Consts.
